@@ -580,7 +580,28 @@ CORPUS = [
 # ------------------------------------------------------------------------------------------------
 # the oracle on one pair
 
-def judge_pair(ma, mb, ga=None, gb=None, tol=1e-3):
+def eq_dict_check(ma, mb):
+    """Molecule.__eq__ accepts a dict: `a == b.dict()` must be the verdict on the molecule that dict denotes.
+    Returns None (consistent / not applicable) or a description."""
+    from qcelemental.models import Molecule
+    try:
+        with contextlib.redirect_stdout(io.StringIO()):
+            d = mb.dict()
+            md = Molecule(orient=False, **d)
+    except Exception:
+        return None                      # the dict does not denote a molecule (unvalidated copies): nothing to compare
+    want = ma.get_hash() == md.get_hash()
+    try:
+        with contextlib.redirect_stdout(io.StringIO()):
+            got = (ma == d)
+    except Exception as e:
+        return f"a == b.dict() raised {type(e).__name__} although Molecule(**b.dict()) is accepted"
+    if bool(got) != want:
+        return f"a == b.dict() is {bool(got)} but the hashes of a and Molecule(**b.dict()) are {'equal' if want else 'different'}"
+    return None
+
+
+def judge_pair(ma, mb, ga=None, gb=None, tol=1e-3, with_dict=True):
     """returns (verdict dict, failure text or None, skipped?); ga/gb: the input coordinates when the molecule was
     built from keyword arguments; tol: how close (in rounding units) to a rounding boundary a coordinate may lie
     before the pair is left unjudged (0.03 for pairs that differ by <= 1e-10 noise on arbitrary coordinates)"""
@@ -594,6 +615,11 @@ def judge_pair(ma, mb, ga=None, gb=None, tol=1e-3):
         obs["differing"] = diff_report(fa, fb)[:12]
     if eq1 != same_hash or eq2 != same_hash:
         return obs, "__eq__ disagrees with equality of hashes", False
+    if with_dict:
+        bad = eq_dict_check(ma, mb)
+        if bad:
+            obs["eq_dict"] = bad
+            return obs, "__eq__ against a dict disagrees with equality of hashes", False
     if any_near_tie(ma, ga, tol) or any_near_tie(mb, gb, tol):
         return obs, None, True
     if same_fields and not same_hash:
@@ -601,6 +627,40 @@ def judge_pair(ma, mb, ga=None, gb=None, tol=1e-3):
     if not same_fields and same_hash:
         return obs, "the listed fields differ after the documented rounding but the hashes are equal", False
     return obs, None, False
+
+
+def judge_sequential(case):
+    """history across objects: molecule a is built, hashed and dropped before molecule b exists (so that state keyed on a dead
+    object — its address, a weak slot — would be found again by b); b's answer must be that of a b built in isolation, i.e.
+    differ from a's exactly when the listed fields differ. Returns (observed, failure text or None)."""
+    import gc
+    ma = build(case["a"])
+    fa, ha = listed_fields(ma, [float(x) for x in case["a"]["geometry"]]), ma.get_hash()
+    tie = any_near_tie(ma, [float(x) for x in case["a"]["geometry"]])
+    del ma
+    for _ in range(case.get("churn", 12)):          # more dead instances of a, each one hashed
+        mx = build(case["a"])
+        mx.get_hash()
+        del mx
+    gc.collect()
+    # several instances of b, kept alive together: some of them are likely to occupy what the dead ones left behind
+    mbs = [build(case["b"]) for _ in range(case.get("instances", 8))]
+    mb = mbs[0]
+    fb = listed_fields(mb, [float(x) for x in case["b"]["geometry"]])
+    hbs = [x.get_hash() for x in mbs]
+    hb = ha if ha in hbs else (hbs[0] if len(set(hbs)) == 1 else sorted(set(hbs))[0] + "|" + sorted(set(hbs))[-1])
+    tie = tie or any_near_tie(mb, [float(x) for x in case["b"]["geometry"]])
+    obs = {"same_fields_after_rounding": fa == fb, "same_hash": ha == hb, "hash_a": ha, "hash_b": hb}
+    if tie:
+        return obs, None
+    if fa != fb and ha == hb:
+        obs["differing"] = diff_report(fa, fb)[:12]
+        return obs, "the listed fields differ after the documented rounding but the hashes are equal"
+    if fa == fb and ha != hb:
+        return obs, "the listed fields agree after the documented rounding but the hashes differ"
+    if len(set(hbs)) != 1:
+        return obs, "instances built from the same arguments have different hashes"
+    return obs, None
 
 
 def zone_limit(n):
@@ -635,6 +695,10 @@ def apply_recipe(m, rec):
     from qcelemental.models import Molecule
     kind = rec[0]
     with contextlib.redirect_stdout(io.StringIO()):
+        if kind == "touch_hash":                   # history: the object has answered get_hash / __eq__ before it is derived from
+            m.get_hash()
+            m == m
+            return m
         if kind == "scramble":                     # geometry_noise=13 inside
             return m.scramble(do_shift=rec[1], do_rotate=rec[2], do_resort=False, do_mirror=bool(rec[3]), do_test=False, verbose=0)[0]
         if kind == "align_to_scrambled":           # geometry_noise=13 inside
@@ -790,6 +854,20 @@ def derived_cases(rng, spec, m0):
             for how in ("copy_update", "dict_update", "dict_update_revalidate"):
                 if rng.random() < 0.1:
                     out.append(("identifiers:" + how + ":" + upd[0], {"a": spi, "chain_b": [[how, upd]]}))
+                elif rng.random() < 0.05:
+                    # ... and the same on an object that has already been hashed / compared (state left behind by a call)
+                    out.append(("identifiers_hashed_first:" + how + ":" + upd[0], {"a": spi, "chain_a": [["touch_hash"]], "chain_b": [[how, upd]]}))
+    # history on a plain molecule: hash it, then derive an edited molecule from the live object
+    k = rng.randrange(3 * nat)
+    ka = rng.randrange(nat)
+    edits = [["geometry", k, rng.choice([1e-6, -1e-6])], ["symbol", ka, SAME_PARITY[spec["symbols"][ka].title()]],
+             ["charge", 2.0], ["multiplicity", 2], ["name", "renamed"]]
+    if nat > 1:
+        edits.append(["real", ka])
+    for upd in edits:
+        for how in ("copy_update", "dict_update", "dict_update_revalidate"):
+            if rng.random() < 0.12:
+                out.append(("history:" + how + ":" + upd[0], {"a": spec, "chain_a": [["touch_hash"]], "chain_b": [[how, upd]]}))
     return out
 
 
@@ -840,6 +918,21 @@ def run_prep(arr, n, x):
     return int(d)
 
 
+def prep_oracle(arr, n, x, k):
+    """float_prep(x, n) = k·10^-n must be the multiple of 10^-n nearest to x (ties to even; the array branch is only judged
+    away from ties, where numpy's binary64 product decides), except inside the array branch's zero-flush zone (known finding)"""
+    if not isinstance(k, int):
+        return "float_prep returned a negative zero or an unrounded value"
+    if arr and near_tie(x, n):
+        return None
+    want = _q(x, n)
+    if k == want:
+        return None
+    if arr and abs(want) <= zone_limit(n) and k == 0:
+        return "zone"
+    return "float_prep does not return the multiple of 10^-n nearest to its argument"
+
+
 def correspond(ctx):
     from qcelemental.exceptions import ValidationError
     corr = Corr()
@@ -886,7 +979,10 @@ def correspond(ctx):
 
     def add_pair(stream, case, ma, mb, intended=None):
         nonlocal skipped_tie
-        obs, bad, skipped = judge_pair(ma, mb, *case_geoms(case), tol=case_tol(case))
+        with_dict = rng.random() < 0.2 or stream.startswith("corpus")
+        obs, bad, skipped = judge_pair(ma, mb, *case_geoms(case), tol=case_tol(case), with_dict=with_dict)
+        if with_dict:
+            corr.count("oracle:eq_against_dict")
         corr.count("oracle:" + stream.split(":")[0])
         corr.hit("pair_same_hash" if obs["same_hash"] else "pair_different_hash")
         if skipped:
@@ -905,7 +1001,15 @@ def correspond(ctx):
             corr.count("pairs:" + stream.split(":")[0])
 
     pair_frac = 0.3 if ctx.thorough else 0.1
-    # corpus first
+    # corpus first; the history cases before the pairs (a failure that depends on state left behind by earlier calls is only
+    # reproducible from a case that recreates that state)
+    for name, a, b in CORPUS:
+        if name in ("corpus_charge_vs_mult", "corpus_docstring"):
+            case = {"a": a, "b": b, "sequential": True, "churn": 80, "instances": 40}
+            obs, bad = judge_sequential(case)
+            corr.count("oracle:sequential")
+            if bad:
+                corr.failures.append({"stream": "oracle:sequential:" + name, "case": case, "what": bad, "observed": obs})
     for name, a, b in CORPUS:
         case = {"a": a, "b": b}
         ma, mb = build(a), build(b)
@@ -959,7 +1063,18 @@ def correspond(ctx):
             if dstream.startswith("derived") and rng.random() < 0.4:
                 add_canon(dstream, da, dcase)
             add_pair(dstream, dcase, da, db)
+        seq_done = False
         for label, intended, sp in perturbations(rng, spec, m0):
+            if label in ("coord_1e-6", "symbol", "noise") and not seq_done and rng.random() < 0.4:
+                seq_done = True
+                scase = {"a": spec, "b": sp, "sequential": True}
+                try:
+                    sobs, sbad = judge_sequential(scase)
+                    corr.count("oracle:sequential")
+                    if sbad:
+                        corr.failures.append({"stream": "oracle:sequential:" + label, "case": scase, "what": sbad, "observed": sobs})
+                except Exception as e:
+                    corr.hit(f"perturbation_rejected:{label}:{ekind(e)}")
             try:
                 mp = build(sp)
             except Exception as e:
@@ -1013,6 +1128,13 @@ def correspond(ctx):
             corr.failures.append({"stream": "oracle:float_prep", "case": {"prep": [arr, n, x]},
                                   "what": "float_prep returned a negative zero or an unrounded value", "observed": k})
             continue
+        bad = prep_oracle(arr, n, x, k)
+        if bad == "zone":
+            corr.hit("float_prep_value_in_zero_flush_zone")
+        elif bad:
+            corr.failures.append({"stream": "oracle:float_prep", "case": {"prep": [arr, n, x]}, "what": bad,
+                                  "observed": {"float_prep": k, "nearest_multiple": _q(x, n)}})
+        corr.hit("float_prep_" + ("array" if arr else "scalar") + ("_to_zero" if k == 0 else "_nonzero"))
         if use_model:
             pterms.append(f"({cbool(arr)}, {cz(n)}, {cfl(x)}, {cz(k)})")
         pmeta.append((arr, n, x, k))
@@ -1133,7 +1255,11 @@ def replay(ctx, rp):
     if "prep" in case:
         arr, n, x = case["prep"]
         k = run_prep(arr, n, x)
-        return {"input": case, "implementation": k, "fails": not isinstance(k, int)}
+        bad = prep_oracle(arr, n, x, k)
+        return {"input": case, "implementation": k, "oracle": bad, "fails": bool(bad) and bad != "zone"}
+    if case.get("sequential"):
+        obs, bad = judge_sequential(case)
+        return {"input": case, "implementation": obs, "oracle": bad, "fails": bool(bad)}
     ma, mb = build_pair(case)
     obs, bad, skipped = judge_pair(ma, mb, *case_geoms(case), tol=case_tol(case))
     return {"input": case, "implementation": obs, "oracle": bad, "fails": bool(bad)}
@@ -1148,7 +1274,9 @@ TRUSTED = [
     "SHA-1 is a parameter of the model, assumed injective (collision freedom is not proved); the theorems are about the hashed text",
     "numpy.around: the theorems are stated for exact round-half-even of the binary64 value (prep_arr); numpy computes rint(fl(x*10^n))/10^n. "
     "C11_np_around_exact proves the two agree unless fl(x*10^n) is a half-integer, for every fl that is monotone and exact on "
-    "half-integers — those two IEEE-754 properties of the multiplication are hypotheses (not modelled bit by bit); the executable fl64 / "
+    "half-integers — those two IEEE-754 properties of the multiplication are hypotheses (not modelled bit by bit); for the noise clause the "
+    "hypotheses are discharged for the executable fl64 (C11_fl64_error: error bound proved of the definition), so what remains trusted "
+    "there is only fl64 = the machine's multiplication; the executable fl64 / "
     "prep_arr64 (numpy's algorithm) is compared with the machine on every value incl. ties and near-ties (streams float_prep_binary64, "
     "binary64_product). Molecule-level comparison and the oracle still exclude (and count) molecules with a value within 1e-3 units of a tie",
     "json.dumps / float repr are modelled at token level (TFlt k n = repr of the double nearest k*10^-n); periodictable.to_mass is an "
@@ -1167,18 +1295,36 @@ LEVEL_TEXT = (
     "equal exactly when the molecules agree on the ten listed fields after float_prep; injectivity needs total charge = sum of fragment "
     "charges at the charge||multiplicity boundary, and C11_canon_injective_without_wf_refuted shows that cannot be dropped), "
     "C11_hash_eq_iff_agree (for any injective digest in place of SHA-1; __eq__ is hash equality), C11_independent_of_route (unset vs "
-    "default-filled fields), C11_independent_of_non_hash_fields, C11_noise_insensitive (|d|<=1e-10 away from a boundary), "
-    "C11_signed_zero_insensitive, C11_tiny_is_zero, C11_prep_idempotent (construction-time pre-rounding), C11_np_around_exact / "
-    "_far (numpy's rint(fl(x*10^n)) equals the exact half-even rounding unless fl(x*10^n) is a half-integer — for every fl monotone and "
-    "exact on half-integers; in particular away from ties by more than the rounding error), C11_prep_arr64_agrees, C11_sensitive / _scalar / _text / "
-    "_coordinate / _discrete (changes above the rounding unit change the text — outside float_prep's zero-flush zone), "
-    "C11_flush_zone_geometry_bound, C11_sensitive_in_flush_zone_refuted (known finding: the threshold is 5**-(n+1), so -5e-7 and +5e-7 hash "
-    "alike), C11_bond_order_invariant (any permutation and any orientation flips of the bond list give the same stored bonds; proved for "
-    "the whole-tuple sort of commit 95cbbdc) and C11_bond_canon_idempotent. The model is tied to the code on every run by the regenerated "
-    "constants/shape checks and by comparing its token list with the exact text the implementation hashed, for validated molecules x 12 "
-    "construction routes x 34 perturbations, library-derived molecules (align / scramble / orient_molecule / get_fragment / from_data(orient) / geometry_noise=13) against their re-validated copies, and molecules carrying identifiers.molecule_hash edited through copy(update) / dict merge, plus equality classes on pairs, float_prep on single numbers and stored bond lists; the "
-    "property oracle (exact decimal rounding of the getters' values, independent of float_prep) judges every pair on the implementation.")
+    "default-filled fields), C11_prerounding_invisible (the geometry stored by the constructor = float_prep of the input hashes like the raw "
+    "input; C11_prep_idempotent), C11_independent_of_non_hash_fields, C11_noise_insensitive (|d|<=1e-10 away from a boundary, one number) and "
+    "C11_noise_insensitive_molecule (noise, either sign of zero and sub-half-unit values on every coordinate at once leave the hashed text "
+    "unchanged), C11_rounding_respects_value, C11_signed_zero_insensitive, C11_tiny_is_zero, C11_np_around_exact / _far (numpy's "
+    "rint(fl(x*10^n)) equals the exact half-even rounding unless fl(x*10^n) is a half-integer) and C11_np_around_noise_insensitive (noise "
+    "<= eps on a value eps + u*10^-n away from every boundary does not change numpy's result, which is the exact rounding) — for every fl "
+    "that is monotone, exact on half-integers and within u of the exact product on [-B, B]; and with no hypothesis on the rounding left: "
+    "C11_fl64_error (the executable binary64 rounding fl64 errs by at most 2^-13 on [-2^40, 2^40]) and C11_noise_insensitive_binary64 "
+    "(float_prep computed by numpy's algorithm rint(fl64(x*10^n)) does not see noise <= 1e-10 away from a boundary and equals the exact "
+    "model there); C11_prep_arr64_agrees, C11_sensitive / _scalar / "
+    "_text / _coordinate / _mass / _charge / _fragment_charge / _discrete (changes above the rounding unit change the text — outside "
+    "float_prep's zero-flush zone, whose extent is C11_flush_zone_geometry_bound / _mass_bound / _charge_bound), "
+    "C11_sensitive_in_flush_zone_refuted (known finding: the threshold is 5**-(n+1), so -5e-7 and +5e-7 hash alike), "
+    "C11_bond_order_invariant (any permutation and any orientation flips of the bond list give the same stored bonds; whole-tuple sort of "
+    "commit 95cbbdc), C11_bond_canon_idempotent, C11_bond_listing_validated_alike (the validator's outcome incl. ValidationError is the same "
+    "for every listing) and C11_bond_listing_hash_invariant. The model is tied to the code on every run by the regenerated constants/shape "
+    "checks and by comparing its token list with the exact text the implementation hashed, for validated molecules x 12 construction routes "
+    "x 34 perturbations, library-derived molecules (align / scramble / orient_molecule / get_fragment / from_data(orient) / "
+    "geometry_noise=13) against their re-validated copies, molecules carrying identifiers.molecule_hash edited through copy(update) / dict "
+    "merge, the same edits on live objects that were hashed and compared first (history), sequences in which a hashed molecule is dropped "
+    "before the next one is built, __eq__ against a dict, plus equality classes on pairs, float_prep on single numbers (also judged against "
+    "the nearest multiple of 10^-n) and stored bond lists; the property oracle (exact decimal rounding of the getters' values, independent "
+    "of float_prep) judges every pair on the implementation.")
 LEVEL_NOTE = (
+    "Clause map: (1) hash/== iff listed fields agree after the rounding: canon_complete, canon_injective, hash_eq_iff_agree [full; documented "
+    "1e-8 refuted in the flush zone]; (2) route independence: independent_of_route, prerounding_invisible, noise_insensitive_molecule "
+    "[encodings/text/files deliver values within noise: correspondence over 12 routes, C07/C10]; (3) non-hash fields: "
+    "independent_of_non_hash_fields [full]; (4) noise / signed zero / tiny: noise_insensitive(_molecule), signed_zero_insensitive, "
+    "tiny_is_zero, np_around_* [binary64 facts as hypotheses]; (5) bond listing: bond_order_invariant, bond_listing_validated_alike, "
+    "bond_listing_hash_invariant [full]; (6) sensitivity: sensitive_* for every listed field [full outside the zone; refuted inside]. "
     "Trusted: Coq kernel + vm_compute; the hand-written model and the translator; SHA-1 assumed injective (parameter, not modelled); "
     "numpy.around: theorems are about exact half-even rounding of the binary64 value; its relation to numpy's binary64 algorithm is "
     "C11_np_around_exact, whose two hypotheses on the floating multiplication (monotone, exact on half-integers) are IEEE-754 facts, not "
